@@ -13,7 +13,7 @@ from coqrun import z  # noqa: E402
 PID = "C19"
 TARGETS = ["Properties/C19.vo"]
 MODEL_TARGETS = ["Model/Stdlib.vo", "Model/InstrOf.vo", "Proofs/C19_Routines.vo", "Proofs/C19_Not.vo", "Proofs/C19_Stack.vo",
-                 "Proofs/C19_NotStack.vo", "Proofs/C19_Malloc.vo"]
+                 "Proofs/C19_NotStack.vo", "Proofs/C19_Malloc.vo", "Proofs/C19_MallocStack.vo"]
 ASSUMPTIONS = [
     "PARTIAL: theorems for div and mod only (signed division truncating towards zero, remainder with the sign of "
     "the dividend, zero divisor gives zero, results are 16-bit words, quotient*divisor+remainder recomposes the "
@@ -134,13 +134,14 @@ def oracle(rng, conv, f, args):
 ROUTINES = {("reg", "size"): lambda b: "size_reg_code", ("reg", "ord"): lambda b: "ord_reg_code",
             ("reg", "not"): lambda b: "(not_reg_code %d)" % b, ("reg", "malloc"): lambda b: "malloc_reg_code",
             ("stack", "size"): lambda b: "size_stack_code", ("stack", "ord"): lambda b: "ord_stack_code",
-            ("stack", "not"): lambda b: "(not_stack_code %d)" % b}
+            ("stack", "not"): lambda b: "(not_stack_code %d)" % b,
+            ("stack", "malloc"): lambda b: "(malloc_stack_code %d)" % b}
 RHEADER = """From Coq Require Import ZArith List.
 From Hera.Lib Require Import Py Machine.
 From Hera.Gen Require Import Ops.
 From Hera.Spec Require Import ISA.
 From Hera.Model Require Import InstrOf.
-From Hera.Proofs Require Import C19_Routines C19_Not C19_Stack C19_NotStack C19_Malloc.
+From Hera.Proofs Require Import C19_Routines C19_Not C19_Stack C19_NotStack C19_Malloc C19_MallocStack.
 Import ListNotations.
 Open Scope Z_scope.
 Definition keyof (p : opname * list Z) : list Z := match instr_of (fst p) (snd p) with Some i => instr_key i | None => [] end.
